@@ -137,6 +137,14 @@ fn gen_zero_weight_space(rng: &mut Xo, o: &GenOpts) -> SpaceSpec {
                 });
                 weights.push(if i == zero { 0.0 } else { *rng.pick(&[0.5, 1.0, 1.0, 2.0]) });
             }
+            // one in twelve: NO component carries weight (all zero, or so tiny that the squares
+            // underflow): every distance and the motion-check resolution are exactly 0
+            if rng.chance(0.08) {
+                let w = *rng.pick(&[0.0, 0.0, 1e-170]);
+                for x in weights.iter_mut() {
+                    *x = w;
+                }
+            }
             SpaceSpec::Compound { parts, weights }
         }
     }
